@@ -1,4 +1,4 @@
-"""C05 -- moving definitions and modules keeps importers working (structural clauses R05.1-R05.14)."""
+"""C05 -- moving definitions and modules keeps importers working (structural clauses R05.1-R05.15)."""
 from __future__ import annotations
 
 import ast
@@ -506,6 +506,9 @@ def _shared(ctx, res) -> None:
     from .common import relative_level_rule
 
     relative_level_rule(ctx, res, "R05.14")
+    from .c16 import module_header_rule
+
+    module_header_rule(ctx, res, "R05.15")
     # R05.9: "an existing import already provides the new one" is a test on dotted names
     prefix_boundary_rule(ctx, res, "R05.9", ["rope.refactor.importutils.actions.AddingVisitor.visitNormalImport"])
     # R05.10: a from-import's module_name is relative text when level > 0; comparing it with an ABSOLUTE dotted name is
